@@ -29,6 +29,8 @@ struct St {
     wpoints: Vec<u64>,
     /// what the thread waits for: true = any point of another thread (lock), false = a state-changing point (spin)
     wait_any: Vec<bool>,
+    /// consecutive read-only points of each thread (an un-annotated busy-wait shows up as an unbounded run of loads)
+    ro_streak: Vec<u32>,
     choices: Vec<usize>,
     pos: usize,
     decisions: Vec<Decision>,
@@ -83,8 +85,24 @@ enum Why {
     Finish,
 }
 
-fn sched(ctl: &Arc<Ctl>, id: usize, mut why: Why, kind: &'static str) {
+/// A thread that has executed this many loads in a row without a single state-changing step is treated as a
+/// busy-waiter (fair scheduling): while another thread can run it waits, like an annotated spin, until somebody makes
+/// state-changing progress. Nothing in the checked code comes near this many consecutive loads outside a wait loop.
+const SPIN_STREAK: u32 = 64;
+
+fn sched(ctl: &Arc<Ctl>, id: usize, mut why: Why, mut kind: &'static str) {
     let mut st = ctl.m.lock().unwrap();
+    if why == Why::Point {
+        if read_only(kind) {
+            st.ro_streak[id] += 1;
+            if st.ro_streak[id] >= SPIN_STREAK && (0..st.done.len()).any(|t| t != id && is_enabled(&st, t)) {
+                why = Why::Wait;
+                kind = "spin";
+            }
+        } else {
+            st.ro_streak[id] = 0;
+        }
+    }
     if why == Why::Wait {
         let any = kind == "blocked";
         if st.wait_any[id] != any {
@@ -104,7 +122,8 @@ fn sched(ctl: &Arc<Ctl>, id: usize, mut why: Why, kind: &'static str) {
         if why == Why::Finish {
             return;
         }
-        std::panic::resume_unwind(Box::new(AbortExec));
+        abort_exec();
+        return;
     }
     match why {
         Why::Finish => st.done[id] = true,
@@ -137,7 +156,7 @@ fn sched(ctl: &Arc<Ctl>, id: usize, mut why: Why, kind: &'static str) {
         ctl.cv.notify_all();
         drop(st);
         if *why != Why::Finish {
-            std::panic::resume_unwind(Box::new(AbortExec));
+            abort_exec();
         }
     };
     if enabled.is_empty() {
@@ -173,13 +192,24 @@ fn sched(ctl: &Arc<Ctl>, id: usize, mut why: Why, kind: &'static str) {
             }
             if st.abort.is_some() {
                 drop(st);
-                std::panic::resume_unwind(Box::new(AbortExec));
+                abort_exec();
+                return;
             }
         }
     }
     if why != Why::Finish {
         st.waiting_since[id] = None;
     }
+}
+
+/// Leaves the current (aborted) execution by unwinding the model thread — unless that thread is already unwinding
+/// from a panic of the code under test (a scheduling point reached from a destructor during cleanup): a second panic
+/// there would abort the whole process, so the thread simply runs on freely; its panic is reported by `run_one`.
+fn abort_exec() {
+    if std::thread::panicking() {
+        return;
+    }
+    std::panic::resume_unwind(Box::new(AbortExec));
 }
 
 fn with_me<F: FnOnce(usize, &Arc<Ctl>)>(f: F) -> bool {
@@ -292,7 +322,7 @@ pub fn body<S, F: Fn(&S) + Send + Sync + 'static>(f: F) -> Body<S> {
 fn run_one<S: Send + Sync + 'static>(state: Arc<S>, bodies: &[Body<S>], choices: Vec<usize>, horizon: usize) -> Exec {
     let n = bodies.len();
     let ctl = Arc::new(Ctl {
-        m: Mutex::new(St { running: usize::MAX - 1, done: vec![false; n], waiting_since: vec![None; n], wait_mark: vec![0; n], points: vec![0; n], wpoints: vec![0; n], wait_any: vec![false; n], choices, pos: 0, decisions: vec![], abort: None, horizon }),
+        m: Mutex::new(St { running: usize::MAX - 1, done: vec![false; n], waiting_since: vec![None; n], wait_mark: vec![0; n], points: vec![0; n], wpoints: vec![0; n], wait_any: vec![false; n], ro_streak: vec![0; n], choices, pos: 0, decisions: vec![], abort: None, horizon }),
         cv: Condvar::new(),
     });
     let panics = Arc::new(Mutex::new(Vec::new()));
